@@ -39,7 +39,9 @@ ASSUMPTIONS = [
   "displayAlign is judged for percentage lines on horizontal cues and for cues without a line setting (after: WebVTT puts "
   "them on the last line); not judged for line numbers nor for percentage lines of vertical cues (WebVTT measures x from "
   "the left for both vertical directions)",
-  "cues with different settings may share a region unless they differ in a judged attribute",
+  "cues with different settings may share a region unless they differ in a judged attribute; in the colliding-settings class "
+  "(settings chosen to give the same origin and extent) each cue's region facts are additionally compared with the same cue "
+  "read alone in a file (the settings select the region, not the neighbouring cues)",
   "several foreground (or several background) colour classes on one tag, colour classes on tags other than <c>, and class "
   "names that are not WebVTT default classes but TTML named colours (green, silver...) are not generated",
   "the `region:` cue setting, timestamps or line breaks inside <ruby>, white-space-only payload lines are not generated",
@@ -60,7 +62,7 @@ ASSUMPTIONS = [
 ]
 REQUIRED = ["files:read", "cues:compared", "clause:count-order", "clause:blocks-skipped", "clause:time", "clause:text",
             "clause:attrs", "clause:ts", "clause:geom-contain", "clause:geom-align", "clause:line-edge",
-            "clause:sharing-equal", "clause:roundtrip", "class:crlf", "class:lf", "class:hours", "class:no-hours", "class:id",
+            "clause:sharing-equal", "clause:isolation", "class:colliding-settings", "clause:roundtrip", "class:crlf", "class:lf", "class:hours", "class:no-hours", "class:id",
             "class:no-id", "class:note", "class:style", "class:region", "feat:b", "feat:i", "feat:u", "feat:c.fg", "feat:c.bg",
             "feat:lang", "feat:v", "feat:ruby", "feat:ruby-2pairs", "feat:depth3", "feat:ts", "feat:ts>=2", "feat:cref,numeric", "feat:cref,lrm-rlm", "feat:cref,amp-lt-gt-nbsp", "feat:multi-line",
             "feat:vertical", "feat:position", "feat:size", "set:line:num0", "set:line:neg", "set:line:pct", "set:align"]
@@ -74,15 +76,34 @@ WRITER_CONFIGS = [dict(line_position=lp, text_align=ta, cue_id=ci) for lp in (Fa
                   for ci in (True, False)]
 
 
+# Families of cue settings that (by the WebVTT rules for percentage lines: start pins the top, center the middle, end the
+# bottom edge of the region) give the same origin and extent, while displayAlign, textAlign or writingMode must differ.
+COLLIDING = [
+  ["line:50%,center", "line:0%", "line:100%,end", "line:0", "line:-1"],           # whole height: center / before / after
+  ["line:20%,center", "line:40%,end"],                                            # [0, 40 %]: center / after
+  ["line:10%,center", "line:20%,end"],
+  ["line:85%,center", "line:70%"],                                                # [70, 100 %]: center / before
+  ["line:75%,center", "line:50%", "line:50%,start"],
+  ["align:start", "align:end", "align:center", "align:left", "align:right"],      # same default box, textAlign differs
+  ["line:10% align:start", "line:10% align:end", "line:10%"],
+  ["vertical:rl", "vertical:lr", "align:center"],                                 # same default box, writing mode differs
+  ["vertical:rl line:10%", "vertical:lr line:10%"],
+  ["vertical:lr line:50%,center", "vertical:lr line:0%", "vertical:lr line:100%,end"],
+  ["line:50%,center align:end", "line:0% align:end", "line:100%,end align:end", "line:0% align:start"],
+]
+
+
 def plan(tier, seed):
   if tier == "thorough":
     shards = [{"kind": "grammar", "part": i, "files": 3125, "roundtrip_every": 4} for i in range(16)]
     shards += [{"kind": "settings", "part": i, "parts": 4, "stride": 1} for i in range(4)]
     shards += [{"kind": "optional", "part": 0, "files": 600}]
+    shards += [{"kind": "collide"}]
   else:
     shards = [{"kind": "grammar", "part": i, "files": 50, "roundtrip_every": 2} for i in range(14)]
     shards += [{"kind": "settings", "part": 0, "parts": 1, "stride": 23}]
     shards += [{"kind": "optional", "part": 0, "files": 100}]
+    shards += [{"kind": "collide"}]
   return shards
 
 
@@ -583,6 +604,46 @@ def roundtrip(doc, stats, only_config=None):
 # evaluation of one file, shrinking, reporting
 # ---------------------------------------------------------------------------------------------------------------------
 
+_REGION_FACTS = ("x", "y", "w", "h", "display_align", "text_align", "writing_mode")
+
+
+def isolation(doc, ast, stats):
+  """Cue settings select the region: the region facts of a cue must not depend on the other cues of the file.  Each cue
+  is read again alone in a file and its origin / extent / displayAlign / textAlign / writingMode are compared.  Also counts
+  the pairs of cues that collide on origin and extent when read alone while differing in an alignment or writing mode
+  (class:colliding-settings)."""
+  findings = []
+  cues = [it for it in ast["items"] if it["k"] == "cue"]
+  ps = doc_paragraphs(doc)
+  if len(ps) != len(cues):
+    return findings
+  alone = []
+  for cue in cues:
+    try:
+      p1 = doc_paragraphs(read_text(G.render_file(G.single_cue_file(cue))))
+      alone.append(observe_region(p1[0]) if len(p1) == 1 else None)
+    except Exception:  # pylint: disable=broad-except
+      alone.append(None)
+  for (ca, ra), (cb, rb) in itertools.combinations(enumerate(alone), 2):
+    if ra is not None and rb is not None and all(ra[k] == rb[k] for k in "xywh") \
+       and any(ra[k] != rb[k] for k in ("display_align", "text_align", "writing_mode")):
+      stats["class:colliding-settings"] += 1
+  for ci, (cue, p, ra) in enumerate(zip(cues, ps, alone)):
+    if ra is None:
+      continue
+    stats["clause:isolation"] += 1
+    ro = observe_region(p)
+    diff = [k for k in _REGION_FACTS if ro is None or ro[k] != ra[k]]
+    if diff:
+      sett = " ".join(n + ":" + v for n, v in cue["settings"]) or "(no settings)"
+      other = next((k for k, q in enumerate(ps) if k != ci and ro is not None and q.get_region() is p.get_region()), None)
+      findings.append({"clause": "region-depends-on-other-cues", "cue": ci, "cue2": other,
+                       "what": f"cue {ci} [{sett}]: read alone its region has " + ", ".join(f"{k}={_show(ra[k])}" for k in diff)
+                               + "; in this file " + ", ".join(f"{k}={_show(ro[k]) if ro else None}" for k in diff)
+                               + (f" (region {ro['id']} shared with cue {other})" if other is not None and ro else "")})
+  return findings
+
+
 def evaluate(text, ast, stats, do_roundtrip=False, only_config=None):
   """Runs the reader on `text` and returns the findings against `ast`."""
   try:
@@ -591,6 +652,8 @@ def evaluate(text, ast, stats, do_roundtrip=False, only_config=None):
     return [{"clause": "reader-raises:" + exc_site(e), "cue": None, "what": f"to_model raised {type(e).__name__}: {e}"}], None
   stats["files:read"] += 1
   findings = compare_doc(doc, ast, stats)
+  if ast.get("isolate"):
+    findings += isolation(doc, ast, stats)
   if do_roundtrip:
     findings += roundtrip(doc, stats, only_config)
   return findings, doc
@@ -841,6 +904,8 @@ class Reporter:
       idx = sorted({finding["cue"]} | ({finding["cue2"]} if finding.get("cue2") is not None else set()))
       cand = G.single_cue_file(cues[idx[0]])
       cand["items"] = [copy.deepcopy(cues[k]) for k in idx]
+      if ast.get("isolate"):
+        cand["isolate"] = True
       pre = (clause, frozenset(file_features(cand)))
       if pre in self.queue:
         self.queue[pre][2] += 1      # same clause, same features, and the first one reproduced in isolation
@@ -981,6 +1046,28 @@ def _run(ctx, rep, params):
       check_file(ctx, rep, text, ast, do_roundtrip=(lo // 12) % 40 == 0)
       if lo == 0 and params["part"] == 0:
         ctx.sample({"file": text[:600]})
+  elif kind == "collide":
+    # cue settings that select the same origin and extent but differ in one judged attribute, in every order, 2-3 cues
+    n = 0
+    for fam in COLLIDING:
+      seqs = list(itertools.permutations(range(len(fam)), 2))
+      seqs += [q for q in itertools.permutations(range(len(fam)), 3)][:24]
+      seqs += [(a, b, a) for a, b in itertools.permutations(range(len(fam)), 2)][:6]     # equal settings again after a collision
+      for seq in seqs:
+        tok = G._Tok("k")  # pylint: disable=protected-access
+        ast = {"bom": False, "eol": "\n" if n % 2 == 0 else "\r\n", "header": "WEBVTT", "header_blanks": 1, "items": [],
+               "final_eols": 1, "isolate": True}
+        for k, fi in enumerate(seq):
+          w = tok()
+          ast["items"].append({"k": "cue", "id": None, "b": 10000 + 2000 * k, "e": 12000 + 2000 * k, "hours": "auto",
+                               "sep": [" ", " ", " "], "settings": [x.split(":", 1) for x in fam[fi].split()],
+                               "body": [{"t": "text", "raw": w, "dec": w}], "blanks": 1})
+        text = G.render_file(ast)
+        check_file(ctx, rep, text, ast, do_roundtrip=False)
+        ctx.count("collide:files")
+        if n == 3:
+          ctx.sample({"file": text})
+        n += 1
   elif kind == "optional":
     # classes that mainly belong to C18 (robustness) or that stretch the grammar: separate mech keys through features
     rng = ctx.rng("optional")
